@@ -23,7 +23,7 @@ from .framework import crat, parse_crat
 PID = "C08"
 P = "OQuPyVerif.Props.C08."
 THEOREMS = [P + t for t in (
-    "wiring_as_modelled", "propagator_memo_keys_complete",
+    "wiring_as_modelled", "propagator_memo_keys_complete", "derivative_rows_match",
     "adjoint_exact_first", "adjoint_exact_second", "objective_invariant",
     "forward_eq_spec_one", "forward_eq_spec_two",
     "model_backprop_eq_spec_one", "backward_order_reversed", "model_backprop_eq_spec_two",
@@ -355,13 +355,24 @@ def reuse_cases(rng, M, coeffs=(0.5, 0.2, 0.1)):
         params = np.array([[rng.uniform(-1, 1) for _ in range(M)] for _ in range(2 * n)])
         params[0] = shared                   # the same control values occur in both calls
         params[-1] = shared
+        if M >= 2:
+            # "mixed" steps: some parameter columns are held over the whole step, others change
+            # at the half step (a detuning held constant, a drive that changes mid-step)
+            for k in range(n):
+                if not np.array_equal(params[2 * k], params[2 * k + 1]):
+                    col = rng.randrange(M)
+                    if 2 * k + 1 == 2 * n - 1:
+                        params[2 * k, col] = params[2 * k + 1, col]
+                    else:
+                        params[2 * k + 1, col] = params[2 * k, col]
         fresh = make_real_system(M, "param", list(coeffs), derivs="frechet")
         pf, df = fresh.get_propagators(dt, params), fresh.get_propagator_derivatives(dt, params)
         E = 1 + call % 2
         pts = [rand_pt(rng, n, rand_bonds(rng, n, 2), dt=dt) for _ in range(E)]
         out.append(dict(desc={"E": E, "N": n, "M": M, "bonds": "rand<=2", "pt_kinds": ["random"] * E,
                               "system": "reused-object-numdifftools", "target": "array",
-                              "call": call, "dt": dt},
+                              "call": call, "dt": dt,
+                              "table": "mixed held/changing columns" if M >= 2 else "random"},
                         pts=pts, n=n, M=M, rho0=_grid(rng, (2, 2), 8), tgt=_grid(rng, (2, 2), 8),
                         system=used, params=params, props=[pf(k) for k in range(n)],
                         dprops=[df(k) for k in range(n)], grad_rtol=1e-6))
@@ -375,7 +386,7 @@ def correspondence(res, tier, rng):
     # numerically differentiated derivatives); expected propagators and derivatives come from a
     # fresh object (user-supplied Frechet derivatives), so a result that depends on the object's
     # history shows up as a disagreement
-    for M in ([1] if tier == "quick" else [1, 2]):
+    for M in ([2] if tier == "quick" else [1, 2, 3]):
         cases += reuse_cases(rng, M)
     # cases through the library's own numerically differentiated propagator derivatives
     nd = 0 if tier == "quick" else 4
@@ -630,6 +641,39 @@ def search(res):
     spec, pts, rho0, tgt, params, ptdesc = build_search_case(item)
     judge(res, item[0], spec, pts, rho0, tgt, params, ptdesc, derivs="numdiff")
     reuse_search(res)
+    for key in MIXED_KEYS:
+        mixed_search(res, key)
+
+
+MIXED_KEYS = ["fd:mixed-table:numdifftools:M=2:N=2", "fd:mixed-table:numdifftools:M=3:N=1",
+              "fd:mixed-table:user-derivs:M=2:N=2", "fd:mixed-table:user-derivs:M=3:N=2"]
+
+
+def mixed_table(r, n, M):
+    """per step: at least one parameter column held over the step, at least one changing mid-step"""
+    params = [[round(r.uniform(-1, 1), 3) for _ in range(M)] for _ in range(2 * n)]
+    for k in range(n):
+        held = r.sample(range(M), r.randrange(1, M))
+        for c in held:
+            params[2 * k + 1][c] = params[2 * k][c]
+    return params
+
+
+def mixed_search(res, key):
+    """parameter tables in which, per step, some columns are constant over the step and others change
+    at the half step; numerically differentiated derivatives and the user-supplied variant"""
+    parts = dict(x.split("=") for x in key.split(":") if "=" in x)
+    M, n = int(parts["M"]), int(parts["N"])
+    derivs = "numdiff" if "numdifftools" in key else "frechet"
+    r = random.Random(hash_key(key))
+    spec = (M, "param", [0.5, 0.2, 0.1])
+    params = mixed_table(r, n, M)
+    pts = [rand_pt(r, n, rand_bonds(r, n, 2))]
+    rho0 = np.array([[0.75, 0.25 - 0.125j], [0.25 + 0.125j, 0.25]])
+    tgt = np.array([[0.5, 0.25 + 0.5j], [0.125, 0.5]])
+    ptdesc = {"kind": "hand-built random rank-4 MPOs, random.Random(hash of the key) stream",
+              "parameter_table": "mixed: per step some columns held, others change at the half step"}
+    return judge(res, key, spec, pts, rho0, tgt, params, ptdesc, derivs=derivs)
 
 
 def reuse_search(res, only=None):
@@ -667,6 +711,8 @@ def replay_one(res, payload):
     base = key[:-len(":dynamics")] if key.endswith(":dynamics") else key
     if base.startswith("fd:reuse-system:"):
         return reuse_search(res, only=base)
+    if base.startswith("fd:mixed-table:"):
+        return mixed_search(res, base)
     found = None
     for item in search_cases(payload.get("seed", res.seed), 40) + [
             ("fd:random-pt:numdifftools:E=2:N=1:M=1", "random", 1, 1, "param", ([[1, 1], [1, 1]], 7))]:
